@@ -7,7 +7,8 @@ sequence of shown strings in content order, whitespace-normalised, one string pe
 
 Used only to check that transcribed sentences and amounts (contracts/official.py, contracts/instructions_transcribed.json)
 occur verbatim in official text that ships with the repository; never as evidence for a property by itself.
-Not supported (returns no text): encrypted files (the N.C. D-401 booklet), fonts without /ToUnicode.
+Files encrypted with the standard handler revision 6 and an empty user password (the N.C. D-401 booklet: editing
+restrictions only) are decrypted by pyvc/pdfcrypt.py.  Not supported (returns no text): other encryption, fonts without /ToUnicode.
 """
 import functools
 import re
@@ -24,8 +25,9 @@ def _inflate(raw):
             return None
 
 
-def objects(data):
-    """-> {objnum: (dict bytes, stream bytes or None)} for top-level objects and the members of object streams."""
+def objects(data, decrypt=None):
+    """-> {objnum: (dict bytes, stream bytes or None)} for top-level objects and the members of object streams.
+    decrypt: stream decryptor of an encrypted file (pyvc/pdfcrypt.py), applied before inflating."""
     objs = {}
     for m in re.finditer(rb'(\d+)\s+(\d+)\s+obj\b', data):
         num = int(m.group(1))
@@ -39,6 +41,11 @@ def objects(data):
             raw = body[sm.end():]
             e = raw.rfind(b'endstream')
             raw = raw[:e] if e >= 0 else raw
+            ln = re.search(rb'/Length\s+(\d+)(?!\s+\d+\s+R)', head)
+            if ln and int(ln.group(1)) <= len(raw):
+                raw = raw[:int(ln.group(1))]
+            if decrypt is not None and not re.search(rb'/Type\s*/XRef', head):
+                raw = decrypt(raw)
             st = _inflate(raw) if b'FlateDecode' in head else raw
             objs[num] = (head, st)
         else:
@@ -97,6 +104,17 @@ def _font_dict(objs, d):
     return b''
 
 
+def _literal(body, cur):
+    """A literal string operand: through the font's ToUnicode map when it has one (one- or two-byte codes), else cp1252."""
+    from .pdfcrypt import _pdf_string
+    raw = _pdf_string(body)
+    if cur and max(cur) > 255 and len(raw) % 2 == 0:
+        return ''.join(cur.get(int.from_bytes(raw[i:i + 2], 'big'), '\ufffd') for i in range(0, len(raw), 2))
+    if cur:
+        return ''.join(cur.get(b, bytes([b]).decode('cp1252', 'replace')) for b in raw)
+    return raw.decode('cp1252', 'replace')
+
+
 @functools.lru_cache(maxsize=None)
 def pages_text(pdf_path):
     """-> tuple of page texts ('' when nothing can be decoded)."""
@@ -105,9 +123,18 @@ def pages_text(pdf_path):
             data = f.read()
     except OSError:
         return ()
-    if not data or b'/Encrypt' in data[-4096:] or re.search(rb'/Encrypt\s+\d+\s+\d+\s+R', data):
+    if not data:
         return ()
-    objs = objects(data)
+    decrypt = None
+    enc = re.search(rb'/Encrypt\s+(\d+)\s+\d+\s+R', data)
+    if enc:
+        from . import pdfcrypt
+        eo = re.search(rb'\b%d\s+0\s+obj(.*?)endobj' % int(enc.group(1)), data, re.S)
+        key = pdfcrypt.file_key(eo.group(1)) if eo else None
+        if key is None:
+            return ()          # not the revision-6 handler with an empty user password
+        decrypt = pdfcrypt.Decryptor(key)
+    objs = objects(data, decrypt)
     cmaps = {}
 
     def font_map(fnum):
@@ -139,13 +166,19 @@ def pages_text(pdf_path):
                     text.append(' ')
                     continue
                 if m.group(4) is not None:
-                    text.append(m.group(4).decode('latin1'))
+                    text.append(_literal(m.group(4), cur))
                     continue
-                hexes = [m.group(2)] if m.group(2) else re.findall(rb'<([0-9A-Fa-f\s]+)>', m.group(3))
-                for h in hexes:
+                if m.group(2):
+                    parts = [('hex', m.group(2))]
+                else:
+                    parts = [('hex', a) if a else ('lit', b) for a, b in re.findall(rb'<([0-9A-Fa-f\s]+)>|\(((?:[^()\\]|\\.)*)\)', m.group(3))]
+                for kind, h in parts:
+                    if kind == 'lit':
+                        text.append(_literal(h, cur))
+                        continue
                     h = re.sub(rb'\s+', b'', h).decode()
                     for i in range(0, len(h) - 3, 4):
-                        text.append(cur.get(int(h[i:i + 4], 16), '�'))
+                        text.append(cur.get(int(h[i:i + 4], 16), '\ufffd'))
         out.append(re.sub(r'\s+', ' ', ''.join(text)).strip())
     return tuple(out)
 
